@@ -5,7 +5,7 @@ from core import World, hx, Line, parse_fs
 from gen import Gen, mode_line, cfg_line
 from suites import run_suite, parse_snap
 
-LEAN_MODULES = ['GoSnaps.Props.C14', 'GoSnaps.Props.Tie.Flows']
+LEAN_MODULES = ['GoSnaps.Props.C14', 'GoSnaps.Props.Tie.Flows', 'GoSnaps.Props.Tie.Wrappers']
 
 
 def gen_value(r, depth=0, simple_numbers=False):
